@@ -456,7 +456,7 @@ class ConfigurationDataHolder(ObjectHolder[build.ConfigurationData], MutableInte
             val = args[1]
         else:
             raise InterpreterException(f'Entry {name} not in configuration data.')
-        if isinstance(val, str) and val[0] == '"' and val[-1] == '"':
+        if isinstance(val, str) and len(val) >= 2 and val[0] == '"' and val[-1] == '"':
             return val[1:-1]
         return val
 
